@@ -112,6 +112,57 @@ def o_callsite_escape(_):
     return True, "compiles"
 
 
+def real_verdict(prog):
+    """what the real pipeline says: ('skip', why) | ('ok',) | ('break',) | ('syntax', msg)"""
+    try:
+        vparse.parse(lexer.tokenise(prog))
+    except (IndexError, ValueError, AssertionError) as ex:
+        return ("skip", "parse " + type(ex).__name__)
+    try:
+        code = transpile(prog, False)
+    except Exception as ex:  # noqa: BLE001
+        return ("skip", "transpile " + type(ex).__name__)
+    try:
+        compile(code, "<vyxal>", "exec")
+    except SyntaxError as ex:
+        if str(ex.msg) in ("'break' outside loop", "'continue' not properly in loop", "'return' outside function"):
+            return ("break",)
+        return ("syntax", str(ex.msg))
+    except ValueError as ex:
+        return ("skip", "source " + str(ex)[:40])
+    return ("ok",)
+
+
+def placed_stream(ctx, progs):
+    """ties the hypothesis and the conclusion of the tree-level theorem `transpile_wf` to the real pipeline:
+    the model's `placedL false false (parse p)` is false exactly where CPython reports break / continue / return out of
+    place (the F5 / F26 call sites), and the model's `wfL` verdict on the transpiled tree is CPython's verdict"""
+    progs = list(dict.fromkeys(progs))
+    out = ctx.driver(["placed\t" + vy.cps(p) for p in progs])
+    ctx.count("corr:placed", len(progs))
+    st = {"agree": 0, "skip": 0, "disagree": 0, "placed=F": 0}
+    for p, m in zip(progs, out):
+        r = real_verdict(p)
+        if r[0] == "skip" or m.startswith("ERR") or "wf=ERR" in m:
+            st["skip"] += 1        # not well-formed (parse raises) or outside the transpiler model (strings it cannot decode)
+            continue
+        placed = "placed=T" in m
+        wf = "wf=T" in m
+        st["placed=F"] += (not placed)
+        if r[0] == "syntax":          # a syntax error of another kind (string escapes, F7): not what wfL is about
+            st["skip"] += 1
+            continue
+        ok = (r[0] == "ok")
+        if wf == ok and (placed or not ok) and (ok or not placed):
+            st["agree"] += 1
+        else:
+            st["disagree"] += 1
+            ctx.disagree("placed", p, repr(r), m)
+    for k, v in st.items():
+        ctx.bump("placed:" + k, v)
+    return st
+
+
 ORACLES = {"compiles": o_compiles, "break_outside_loop": o_callsite_break, "string_escape": o_callsite_escape}
 
 CONTEXTS33 = [("", ""), ("1", ""), ("[", "]"), ("[1|", "]"), ("[1|2|", "]"), ("(", ")"), ("(n|", ")"), ("{", "}"), ("{", "|1}"), ("{1|", "}"),
@@ -167,6 +218,7 @@ def run(ctx, widen=False):
     ctx.sample({"prog": "3(λ[X];)", "python": transpile("3(λ[X];)")[:300]})
     sub = progs if thorough else progs[: 9000]
     aststream.run_stream(ctx, sub, dict_compress=False)
+    placed_stream(ctx, sub)
     nocomp = [p for p in sub[:3000] if not any(c in g["codepage"][:0] for c in p)]
     ctx.sample({"prog": sub[-1]})
 
